@@ -2,6 +2,7 @@ package gen
 
 import (
 	"fmt"
+	"regexp"
 	"strings"
 
 	"pgregory.net/rapid"
@@ -74,6 +75,15 @@ func (g *G) mappable(a *m.Attr) (path, query, header, cookie bool) {
 	cookie = isPrim && g.p.Cookies
 	if cookie && a.Type.Kind != m.String && g.avoid("C01-cookie-nonstring") {
 		cookie = false
+	}
+	// cookie values are limited to cookie-octets by HTTP (net/http drops other bytes)
+	for _, e := range MergedValidation(g.d, a).Enum {
+		if e.K == "string" && !cookieSafe(e.S) {
+			cookie = false
+		}
+		if e.K == "string" && path && strings.Contains(e.S, "/") && g.avoid("C02-client-path-slash-unescaped") {
+			path = false
+		}
 	}
 	return
 }
@@ -163,7 +173,11 @@ func (g *G) primitivePayload(meth *m.Method, hasBodyVerb bool) {
 		}
 		switch rapid.IntRange(0, nloc).Draw(t, "pploc") {
 		case 0:
-			h.Path = []m.Mapping{{Attr: "p"}}
+			pname := rapid.SampledFrom([]string{"id", "key", "p"}).Draw(t, "ppname")
+			if pname == "p" && g.avoid("C02-primitive-payload-path-param-named-p") {
+				pname = "id"
+			}
+			h.Path = []m.Mapping{{Attr: pname}}
 		case 1:
 			h.Query = []m.Mapping{{Attr: "q"}}
 		default:
@@ -248,7 +262,7 @@ func (g *G) mapObjectPayload(meth *m.Method, hasBodyVerb bool) {
 		if hasBodyVerb {
 			opts = append(opts, "body", "body", "body")
 		}
-		if canPath && (f.Required || inline) && f.Attr.Default == nil && !(f.Attr.Type.Kind == m.User && g.avoid("C01-alias-path-param-empty-body")) {
+		if canPath && (f.Required || inline) && f.Attr.Default == nil && !(f.Name == "p" && g.avoid("C01-path-param-named-p")) {
 			opts = append(opts, "path")
 		}
 		if canQuery {
@@ -361,7 +375,19 @@ func (g *G) routes(s *m.Service, meth *m.Method, verb string) {
 		}
 		return prefix + params
 	}
-	h.Routes = append(h.Routes, m.Route{Verb: verb, Path: mk(base)})
+	// the same verb and path may not be mounted twice (goa does not detect
+	// collisions between services): make the literal part unique when needed
+	unique := func(verb, path string) string {
+		for try := 0; ; try++ {
+			key := verb + " " + oraclePath(g.d.API.BasePath, s.BasePath, path)
+			if !g.used["R:"+key] {
+				g.used["R:"+key] = true
+				return path
+			}
+			path = "/" + norm(s.Name) + fmt.Sprint(try) + path
+		}
+	}
+	h.Routes = append(h.Routes, m.Route{Verb: verb, Path: unique(verb, mk(base))})
 	if g.p.MultiRoute && rapid.IntRange(0, 2).Draw(t, "multiroute") == 0 {
 		n := rapid.IntRange(1, 2).Draw(t, "nextra")
 		for i := 0; i < n; i++ {
@@ -373,7 +399,7 @@ func (g *G) routes(s *m.Service, meth *m.Method, verb string) {
 					v = rapid.SampledFrom([]string{"POST", "PUT", "PATCH"}).Draw(t, "bverb2")
 				}
 			}
-			h.Routes = append(h.Routes, m.Route{Verb: v, Path: mk(fmt.Sprintf("%s/alt%d", base, i+1))})
+			h.Routes = append(h.Routes, m.Route{Verb: v, Path: unique(v, mk(fmt.Sprintf("%s/alt%d", base, i+1)))})
 		}
 		g.feat("multi-route")
 	}
@@ -562,4 +588,28 @@ func (g *G) methodErrors(s *m.Service, meth *m.Method) {
 			g.feat("errors-share-status")
 		}
 	}
+}
+
+var reParam = regexp.MustCompile(`\{[^}]*\}`)
+
+// oraclePath normalises a full path for collision detection: parameters are anonymous.
+func oraclePath(parts ...string) string {
+	var segs []string
+	for _, p := range parts {
+		for _, s := range strings.Split(p, "/") {
+			if s != "" {
+				segs = append(segs, reParam.ReplaceAllString(s, "{}"))
+			}
+		}
+	}
+	return "/" + strings.Join(segs, "/")
+}
+
+func cookieSafe(s string) bool {
+	for _, r := range s {
+		if r <= 0x20 || r >= 0x7f || r == '"' || r == ';' || r == '\\' || r == ',' {
+			return false
+		}
+	}
+	return true
 }
